@@ -106,9 +106,8 @@ class AbstractWrappingDispatcher(AbstractDispatcher):
     def remove(self, func_proxy):
         mdl.NotificationCenter.unregister(func_proxy, 'function', self)
         keys = self.get_keys_for_func_proxy(func_proxy)
-        func = self.wrapped_funcs[func_proxy]
         for key in keys:
-            self.active[key].remove(func)
+            del self.active[key][self._entry_index(key, func_proxy)]
             if not self.active[key]:
                 del self.active[key]
         del self.wrapped_funcs[func_proxy]
@@ -117,12 +116,32 @@ class AbstractWrappingDispatcher(AbstractDispatcher):
 
     def update_func_for_func_proxy(self, func_proxy):
         func = self.wrap_func(func_proxy)
-        old_func = self.wrapped_funcs[func_proxy]
-        self.wrapped_funcs[func_proxy] = func
         keys = self.get_keys_for_func_proxy(func_proxy)
-        for key in keys:
-            i = self.active[key].index(old_func)
+        indices = [self._entry_index(key, func_proxy) for key in keys]
+        self.wrapped_funcs[func_proxy] = func
+        for key, i in zip(keys, indices):
             self.active[key][i] = func
+
+    def _entry_index(self, key, func_proxy):
+        # Position of func_proxy's own entry in self.active[key]. Several
+        # proxies may hold the same (or an equal) function: entries are in
+        # the order of self.wrapped_funcs, so the entry of this proxy comes
+        # after the equal entries of the proxies added before it. Looking it
+        # up by value (list.remove/index) would take the first one, which
+        # moves an earlier responder behind later ones.
+        func = self.wrapped_funcs[func_proxy]
+        skip = 0
+        for proxy, other in self.wrapped_funcs.items():
+            if proxy is func_proxy:
+                break
+            if other == func and key in self.get_keys_for_func_proxy(proxy):
+                skip += 1
+        for i, other in enumerate(self.active[key]):
+            if other == func:
+                if skip == 0:
+                    return i
+                skip -= 1
+        raise ValueError(f'{func_proxy} has no entry for {key}')
 
     @abstractmethod
     def wrap_func(self, func_proxy):
